@@ -9,7 +9,7 @@ from __future__ import annotations
 
 import z3
 
-from pyvc.sym import term, trunc_real
+from pyvc.sym import term, trunc_real, fop
 
 I32_MIN, I32_MAX = -(2 ** 31), 2 ** 31 - 1
 
@@ -42,6 +42,8 @@ def binary(opname, a, b, int_result):
     if not int_result and not real and opname == "DIV":
         # a float-typed division of two whole numbers the VM holds as Python ints (zero-initialised float locals, `float x = 7;`)
         x, y, real = z3.ToReal(x), z3.ToReal(y), True
+    if real and opname in ("ADD", "SUB", "MUL", "DIV"):
+        return fop(opname.lower(), x, y)          # the real operator, or the uninterpreted IEEE one under FloatUF
     if opname == "ADD":
         return x + y
     if opname == "SUB":
